@@ -94,6 +94,25 @@ class P(Prop):
                         ts = [sw(), sw(), knot[0]]
                     out.append(dict(op="integral_eval", ty="Log<Poly4>", cs=[C.bits(x) for x in cs], knot=[C.bits(x) for x in knot],
                                     ts=[C.bits(t) for t in ts], libm=True, meta={"class": "log_integral/4/" + style}))
+            # the zero integrand (zeros of either sign) through a knot with a non-zero ordinate: F is the constant knot.y
+            for _ in range(max(1, per // 4)):
+                cs = [rng.choice([0.0, 0.0, -0.0]) for _ in range(k + 1)]
+                knot = [rng.choice([2.0, 0.5, 7.0, 1.0]), rng.choice([7.0, -2.5, 1.0])]
+                ts = [rng.uniform(0.05, 10), rng.uniform(0.05, 10), knot[0]]
+                out.append(dict(op="integral_eval", ty="Log<Poly%d>" % k, cs=[C.bits(x) for x in cs], knot=[C.bits(x) for x in knot],
+                                ts=[C.bits(t) for t in ts], libm=True, meta={"class": "log_integral/zero_integrand"}))
+            # arguments (and anchors) with |ln| far beyond 64: 1e+-20 .. 1e+-100
+            if k != 4:
+                for _ in range(max(2, per // 3)):
+                    cs = [rng.choice([rng.small_int(-5, 5), rng.uniform(-3, 3)]) for _ in range(k + 1)]
+                    far = lambda: 10.0 ** (rng.choice([1, -1]) * rng.uniform(20, 100))
+                    knot = [rng.choice([1.0, 10.0, far()]), rng.choice([0.0, 2.0])]
+                    ts = [far(), far(), rng.choice([10.0, knot[0]])]
+                    if rng.random() < 0.5:
+                        sg = rng.choice([1, -1])
+                        ts = [10.0 ** (sg * rng.uniform(30, 100)), 10.0 ** (sg * rng.uniform(30, 100)), knot[0]]
+                    out.append(dict(op="integral_eval", ty="Log<Poly%d>" % k, cs=[C.bits(x) for x in cs], knot=[C.bits(x) for x in knot],
+                                    ts=[C.bits(t) for t in ts], libm=True, meta={"class": "log_integral/far_arguments"}))
             for _ in range(max(1, per // 4)):
                 cs = [rng.uniform(-3, 3) for _ in range(k + 1)]
                 out.append(dict(op="integral_eval", ty="Log<Poly%d>" % k, cs=[C.bits(x) for x in cs], knot=None,
